@@ -522,6 +522,29 @@ def check_mapping(case):
                 elif opname == '+' and not (isinstance(res, dict) and set(dict.keys(res)) == set(keys)):
                     out.viol('wrong-keys', '%s: result keys %r' % (what, list(dict.keys(res)) if isinstance(res, dict) else res), op='+', cls=cname, other='nested', sel='present', law=False)
 
+    # ---- multi-key access d[k1, k2] where one of the names is a dotted path INTO a nested mapping: each name is read exactly as d[name] alone reads it
+    if mode == 'obj' and len(keys) >= 2:
+        import collections
+        k0, k1 = keys[0], keys[-1]
+        for nkind, ncls in (('dict', dict), ('dictattr', _classes()['dictattr'])):
+            out.sub()
+            inner = ncls([('x', 1), ('w', [2])])
+            d = cls([(k, (inner if k == k0 else vals[k])) for k in keys])
+            what = "%s with %s = %s(x=1, w=[2])" % (shown, k0, nkind)
+            try:
+                one = d['%s.x' % k0]
+                got = d[k1, '%s.x' % k0]
+                got2 = d['%s.w' % k0, '%s.x' % k0, k1]
+                out.call(3)
+                w_ = dict.__getitem__(inner, 'w')
+                if one != 1 or not (isinstance(got, list) and len(got) == 2 and got[0] is vals[k1] and got[1] == 1) \
+                        or not (isinstance(got2, list) and len(got2) == 3 and got2[0] is w_ and got2[1] == 1 and got2[2] is vals[k1]):
+                    out.viol('wrong-value', "%s: d['%s.x'] = %r, d[%r, '%s.x'] = %r, d['%s.w', '%s.x', %r] = %r; expected 1, [d[%r], 1], [[2], 1, d[%r]]" % (
+                        what, k0, one, k1, k0, got, k0, k0, k1, got2, k1, k1), op='getitem-multi', cls=cname, spell='dotted')
+            except Exception as e:
+                out.viol('raised', "%s: d[%r, '%s.x'] (multi-key access with a dotted path) raised %s: %s" % (what, k1, k0, type(e).__name__, e), op='getitem-multi', cls=cname, nested=nkind,
+                         exc=type(e).__name__)
+
     # ---- relabel with a caller-owned dict of renames plus keyword renames: the caller's dict is an operand too
     if 'a' in keys and 'b' in keys:
         out.sub()
@@ -680,13 +703,20 @@ def check_call(case):
         src = {n: _source(n, params[n]) for n in names}
     funcs = {n: eval(src[n], {}) for n in names}
     consts = {'q': 20} if variant == 'const' else {}
+    if variant == 'mapconst':
+        # constants that are themselves MAPPINGS: q replaces the mapping-valued member q (it is not merged into it), r is a new member holding an empty mapping
+        consts = {'q': {'y': 3}, 'r': {}}
     P = 'p'
     if variant == 'keymember':       # the mapping's own member is called 'key': a function asking for `key` gets the member, like any other name
         P = 'key'
         params = {n: [P if x == 'p' else x for x in ps] for n, ps in params.items()}
         src = {n: _source(n, params[n]) for n in names}
         funcs = {n: eval(src[n], {}) for n in names}
-    env = {P: 1, 'q': 2}
+    INNER = {'x': 1}
+    base0 = {P: 1, 'q': 2}
+    if variant == 'mapconst':
+        base0 = {P: 1, 'q': {'x': 1, 'y': 2}, 'inner': INNER}
+    env = dict(base0)
     env.update(consts)
     val = _model(names, params, env)
     expect = None
@@ -702,11 +732,11 @@ def check_call(case):
         out.sub()
         if has_edge:
             out.nontrivial('o%d' % oi)
-        d = cls(**{P: 1, 'q': 2})
+        d = cls(**{k_: (dict(v_) if isinstance(v_, dict) and v_ is not INNER else v_) for k_, v_ in base0.items()})
         kwargs = {}
         for n in order:
-            kwargs[n] = funcs[n] if n in funcs else consts[n]
-        what = '%s(%s=1, q=2)(%s)' % (cname, P, ', '.join('%s=%s' % (n, src[n] if n in src else repr(consts[n])) for n in order))
+            kwargs[n] = funcs[n] if n in funcs else (dict(consts[n]) if isinstance(consts[n], dict) else consts[n])
+        what = '%s(%s)(%s)' % (cname, ', '.join('%s=%r' % kv for kv in base0.items()), ', '.join('%s=%s' % (n, src[n] if n in src else repr(consts[n])) for n in order))
         try:
             res = _fuelled(lambda: d(**kwargs))
             out.call()
@@ -734,7 +764,9 @@ def check_call(case):
                 out.viol('call-wrong-result', '%s: expected %s got %s' % (what, show(expect), show(dict(res) if isinstance(res, dict) else res)), **sig)
             if res is d:
                 out.viol('not-a-new-mapping', '%s returned the Dict it was called on' % what, op='call', **sig)
-        if type(d) is not cls or list(dict.items(d)) != [(P, 1), ('q', 2)]:
+            if variant == 'mapconst' and isinstance(res, dict) and res.get('inner') is not INNER:
+                out.viol('call-wrong-result', '%s: the member `inner`, which the call does not mention, is no longer the same object in the result' % what, identity=True, **sig)
+        if type(d) is not cls or list(dict.items(d)) != list(base0.items()) or (variant == 'mapconst' and dict.__getitem__(d, 'inner') is not INNER):
             out.viol('operand-mutated', '%s changed the Dict it was called on to %r' % (what, dict(d)), op='call', **sig)
     return out
 
@@ -793,8 +825,10 @@ def gen_calls(tier):
     quick = tier == 'quick'
     for m in range(1, 5):
         graphs = list(_digraphs(m))
-        for variant in ('plain', 'override', 'const', 'keymember', 'keydef', 'defaulted'):          # variant outside the graph loop: neighbouring cases cost the same
+        for variant in ('plain', 'override', 'const', 'keymember', 'keydef', 'defaulted', 'mapconst'):          # variant outside the graph loop: neighbouring cases cost the same
             if m == 4 and quick and variant != 'plain':
+                continue
+            if variant == 'mapconst' and m > 2:
                 continue
             for cname in (('Dict', 'SubDict') if ((m <= 3 and variant[:3] != 'key' and variant != 'defaulted') or (variant == 'plain' and not quick)) else ('Dict',)):
                 for deps in graphs:
